@@ -3,7 +3,9 @@ package props
 // C07 — plan space accounting matches the files actually held.
 
 import (
+	"encoding/json"
 	"fmt"
+	wasmvmtypes "github.com/CosmWasm/wasmvm/types"
 	"math"
 	"math/big"
 	"strings"
@@ -320,6 +322,22 @@ func TestC07(t *testing.T) {
 					w.removedSeen = true
 					w.logf("a reward block dropped file(s)")
 				}
+			},
+			// a contract (any account can be one) that owns a plan posts through the chain's custom contract message instead of
+			// a transaction, with sizes and replication counts a transaction would never get past validation with
+			"contractPost": func(rt *rapid.T) {
+				o := w.owners[rapid.IntRange(0, len(w.owners)-1).Draw(rt, "contract")]
+				size := rapid.SampledFrom([]int64{-2_000_000_000, -1, 0, 1, 1000, 2_000_000_000}).Draw(rt, "size")
+				mp := rapid.SampledFrom([]int64{-1, 0, 1, 3}).Draw(rt, "maxProofs")
+				pm := &storagetypes.MsgPostFile{Creator: o.Bech, Merkle: buildFile([]byte(fmt.Sprintf("contract-%d-%d-%d", size, mp, len(w.trace))), 1024).Merkle, FileSize: size, MaxProofs: mp, Note: "{}"}
+				custom, err := json.Marshal(map[string]interface{}{"post_file": pm})
+				must(err)
+				cctx, write := w.f.Ctx.CacheContext()
+				_, _, derr := wasmMessenger(w.c.App).DispatchMsg(cctx, o.Addr, "", wasmvmtypes.CosmosMsg{Custom: custom})
+				if derr == nil {
+					write()
+				}
+				w.logf("contract %s posts size=%d maxProofs=%d through the custom message -> %v", short(o.Bech), size, mp, derr)
 			},
 			// the clock moves to just before / just after the end of somebody's plan (within seconds, hours, a day)
 			"toPlanEnd": func(rt *rapid.T) {
